@@ -103,12 +103,14 @@ def dec_point(b):
 
 
 class Prog:
+    shape_rng = None      # when set (by suites.generate), multi-scalar calls draw the shape of their slice arguments from it
+
     def __init__(self, pid, note=""):
         self.id = pid
         self.note = note
         self.steps = []
 
-    def op(self, op, r=None, a=None, ss=None, ps=None, o=None, n=None):
+    def op(self, op, r=None, a=None, ss=None, ps=None, o=None, n=None, shape=None):
         st = {"op": op}
         if r is not None:
             st["r"] = r
@@ -122,6 +124,12 @@ class Prog:
             st["o"] = list(o)
         if n is not None:
             st["n"] = int(n)
+        if shape:
+            st["shape"] = shape
+        elif ss is not None and Prog.shape_rng is not None:
+            c = Prog.shape_rng.randrange(8)
+            if c < 3:
+                st["shape"] = ["exact", "nil", "niln"][c]
         self.steps.append(st)
         return self
 
